@@ -64,6 +64,11 @@ def run_case(case):
     tot = float(model.total)
     rng = np.random.Generator(np.random.PCG64(case['order_seed']))
     allowed = (~mask).astype(float)
+    # float64 resolves log-probabilities to ~2e-16 x |theta|: same magnitude-aware tolerance as C08
+    mag = max([float(np.max(np.abs(v[np.isfinite(v)]))) if np.isfinite(v).any() else 0.0
+               for v in (np.asarray(model.potentials[c].values, dtype=float) for c in model.cliques)] + [0.0])
+    sum_tol = 1e-6 + 1e-14 * mag
+
     def sweep(tag):
         for r in range(0, len(attrs) + 1):
             for sub in itertools.combinations(attrs, r):
@@ -73,7 +78,7 @@ def run_case(case):
                     return finish(out.fail('invalid:nonfinite' + tag, 'project(%s) has NaN/inf entries' % (want,)), case, X, mask, tt)
                 if np.min(v) < -1e-9 * tot:
                     return finish(out.fail('invalid:negative' + tag, 'project(%s) has entry %r' % (want, float(np.min(v)))), case, X, mask, tt)
-                if abs(float(v.sum()) - tot) > 1e-6 * tot:      # (same resolution argument as C08)
+                if abs(float(v.sum()) - tot) > sum_tol * tot:
                     return finish(out.fail('invalid:sum' + tag, 'project(%s) sums to %r, total %r' % (want, float(v.sum()), tot)), case, X, mask, tt)
                 dead = oracles.marg(allowed, attrs, want) == 0
                 if np.any(dead) and float(np.max(v[dead])) > 1e-60 * tot:
